@@ -15,6 +15,7 @@ import errno
 import io
 import os
 import pathlib
+import stat as stat_mod
 
 PREFIX = "/simfs/"
 
@@ -55,7 +56,7 @@ class SimFS:
         self.files: dict[str, bytes] = {}
         self.chunk = 0
         self.fault = None
-        self.stats = {"is_file": 0, "opens": 0, "raw_reads": 0, "short_reads": 0, "eio_fired": 0, "vanish_fired": 0}
+        self.stats = {"is_file": 0, "stat": 0, "opens": 0, "raw_reads": 0, "short_reads": 0, "eio_fired": 0, "vanish_fired": 0}
         self._installed = False
         self._answered_true: set = set()
 
@@ -82,6 +83,17 @@ class SimFS:
         if ok:
             self._answered_true.add(key)
         return ok
+
+    def _stat(self, key):
+        """stat()/lstat() of a simulated path: regular files from the table, the reserved directories above them, else ENOENT."""
+        self.stats["stat"] = self.stats.get("stat", 0) + 1
+        if key in self.files:
+            self._answered_true.add(key)
+            size = len(self.files[key])
+            return os.stat_result((stat_mod.S_IFREG | 0o644, abs(hash(key)) % (1 << 31), 99, 1, 0, 0, size, 1_600_000_000, 1_600_000_000, 1_600_000_000))
+        if any(f.startswith(key.rstrip("/") + "/") for f in self.files) or key.rstrip("/") == PREFIX.rstrip("/"):
+            return os.stat_result((stat_mod.S_IFDIR | 0o755, 1, 99, 2, 0, 0, 4096, 1_600_000_000, 1_600_000_000, 1_600_000_000))
+        raise FileNotFoundError(errno.ENOENT, "No such file or directory", key)
 
     def _open(self, key, mode="r", buffering=-1, encoding=None, errors=None, newline=None):
         self.stats["opens"] += 1
@@ -137,6 +149,22 @@ class SimFS:
             k = fs._key(p) if not isinstance(p, int) else None
             return o_pexists(p) if k is None else fs._is_file(k)
 
+        o_stat, o_lstat = os.stat, os.lstat
+
+        def s_stat(path, *a, **kw):
+            k = fs._key(path) if not isinstance(path, int) else None
+            if k is None:
+                return o_stat(path, *a, **kw)
+            return fs._stat(k)
+
+        def s_lstat(path, *a, **kw):
+            k = fs._key(path) if not isinstance(path, int) else None
+            if k is None:
+                return o_lstat(path, *a, **kw)
+            return fs._stat(k)
+
+        os.stat = s_stat
+        os.lstat = s_lstat
         pathlib.Path.open = path_open
         pathlib.Path.is_file = path_is_file
         pathlib.Path.exists = path_exists
